@@ -1,6 +1,7 @@
 J = 'prysm/polynomials/jacobi.py'
 Q = 'prysm/polynomials/qpoly.py'
 I = 'prysm/polynomials/__init__.py'
+QP = 'prysm/polynomials/qpoly.py'
 CATALOGUE = [
     ('mutant', J, "    alphas[M] = s[M]\n    if M == 0:\n        # a single term: s[0] * P_0, and P_0 = 1\n        return alphas[0]\n\n", "    alphas[M] = s[M]\n", 'C10.len1', 'jacobi clenshaw without the length-1 guard (pinned defect)'),
     ('mutant', J, "        _, _, c = recurrence_abc(n+1, alpha, beta)\n        alphas[n] = s[n] + (a * x + b) * alphas[n+1] - c * alphas[n+2]", "        _, _, c = recurrence_abc(n, alpha, beta)\n        alphas[n] = s[n] + (a * x + b) * alphas[n+1] - c * alphas[n+2]", 'C10.clenshaw', 'c taken from n instead of n+1'),
@@ -15,4 +16,14 @@ CATALOGUE = [
     ('mutant', I, "    modes = modes[:, mask.ravel()].T  # transpose moves modes to columns, as needed for least squares fit", "    modes = modes.T  # transpose moves modes to columns, as needed for least squares fit", 'C10.lstsq', 'modes not masked'),
     ('mutant', I, "    return np.tensordot(modes, weights, axes=(0, 0))", "    return np.tensordot(modes, weights, axes=(1, 0))", 'C10.tensordot', 'contraction over a spatial axis'),
     ('variant', J, "        alphas[n] = s[n] + (a * x + b) * alphas[n+1] - c * alphas[n+2]\n\n    return alphas[0]", "        alphas[n] = (b + x * a) * alphas[n+1] + (s[n] - alphas[n+2] * c)\n\n    return alphas[0]", '', 'step rearranged'),
+    # change of basis / assembly
+    ('mutant', QP, '        g = g_qbfs(i)\n        h = h_qbfs(i)\n        f = f_qbfs(i)\n        bs[i] = (cs[i] - g * bs[i+1] - h*bs[i+2])/f\n', '        g = g_qbfs(i)\n        h = h_qbfs(i+1)\n        f = f_qbfs(i)\n        bs[i] = (cs[i] - g * bs[i+1] - h*bs[i+2])/f\n', 'C10.basis', 'Qbfs change of basis: h taken at i+1'),
+    ('mutant', QP, '    g = g_qbfs(M-1)\n    f = f_qbfs(M-1)\n    bs[M-1] = (cs[M-1] - g * bs[M])/f\n', '    g = g_qbfs(M-1)\n    f = f_qbfs(M)\n    bs[M-1] = (cs[M-1] - g * bs[M])/f\n', 'C10.basis', 'Qbfs change of basis: second entry divided by f_M'),
+    ('mutant', QP, '        ds[n] = (cs[n] - g_q2d(n, m) * ds[n+1]) / f_q2d(n, m)\n', '        ds[n] = (cs[n] - g_q2d(n+1, m) * ds[n+1]) / f_q2d(n, m)\n', 'C10.basis', 'Q2d change of basis: g taken at n+1'),
+    ('mutant', QP, '    if m < 0:\n        m = -m\n\n    cs = cns\n', '    cs = cns\n', 'C10.basis', 'Q2d change of basis: negative m not folded'),
+    ('mutant', QP, '    S = 2 * (alphas[0] + alphas[1])\n    return (x * (1 - x)) * S\n', '    S = 2 * alphas[0] + alphas[1]\n    return (x * (1 - x)) * S\n', 'C10.assembly', 'clenshaw_qbfs: alpha_1 weight'),
+    ('mutant', QP, '        if n == 1:\n            return -4/3, -8/3, -11/3\n', '        if n == 1:\n            return -4/3, -8/3, 11/3\n', 'C10.assembly', 'effective C_1^1 sign'),
+    ('mutant', QP, '                Sa -= 2/5 * alphas_a[0][3]\n', '                Sa -= 2/3 * alphas_a[0][3]\n', 'C10.assembly', 'm = 1 correction constant'),
+    ('mutant', QP, '    if m == 2 and n == 0:\n        return 3, -2, 0\n', '    if m == 2 and n == 0:\n        return 3, -1, 0\n', 'C10.assembly', 'effective B_0^2'),
+    ('variant', QP, '        bs[i] = (cs[i] - g * bs[i+1] - h*bs[i+2])/f\n', '        bs[i] = (cs[i] - (h*bs[i+2] + bs[i+1]*g)) * (1/f)\n', '', 'Qbfs change of basis rearranged'),
 ]
